@@ -30,10 +30,18 @@ pub open spec fn lc_wf(lc: LineChange) -> bool {
 //@include prelude/diff_lines_proof.rs
 //@include prelude/diff_patchset.rs
 
-/// Contract of D-d `line_diff` (group diffranges); assumed here, see difflines.notes.md.
+/// `max(new.len(), 1)` (same definition as in groups/diffranges.rs)
+spec fn line_bound(new: &str) -> int {
+    if new.len() == 0 { 1 } else { new.len() as int }
+}
+
+/// Contract of D-d `line_diff`: exactly the postcondition PROVED in group diffranges (for any
+/// sequence of diff ops); assumed here because single-file Verus cannot share it. Keep in sync.
 #[verifier::external_body]
 fn line_diff(old: &str, new: &str) -> (r: Vec<Range<usize>>)
-    ensures ranges_wf(r@),
+    ensures
+        ranges_wf(r@), // [Dd.post.ranges_wf]
+        forall|i: int| 0 <= i < r@.len() ==> (#[trigger] r@[i]).end <= line_bound(new), // [Dd.post.ranges_within_line]
 { unimplemented!() }
 
 //@unit id=Db.fold file=src/diff_parser.rs fn=fold_deleted_lines
